@@ -13,6 +13,13 @@
 //!   mute     complete the handshake, read everything, never acknowledge a `Connect`
 //!            (the client's 1 s channel timeout fires)
 //!   healthy  complete the handshake and run a real `penguin_mux::Multiplexor` that echoes
+//!   silent   complete the handshake, answer Pings for a short while (2 Pongs or 700 ms), then
+//!            neither read nor write any more while the TCP connection stays open; the client
+//!            runs with keepalive interval I / timeout T and must treat the silence as a lost
+//!            connection (C16: no earlier than T, no later than T + I after the last Pong) --
+//!            and must stay connected when keepalive is off (control)
+//!   tls-stall  (`wss://` URL, `--tls-skip-verify`) accept and never answer the TLS ClientHello:
+//!            the handshake timeout covers TCP connect and the TLS handshake too
 //! plus a family with a port that really refuses (bound, not listening) where the
 //! attempts cannot be seen but the result and the total time can.
 //!
@@ -47,6 +54,15 @@ const TOL_MS: f64 = 2.0;
 const BASE_MS: u64 = 200;
 const HS_TIMEOUT_MS: u64 = 1000;
 const CH_TIMEOUT_MS: u64 = 1000;
+/// families E / F: nothing that depends on real time is asserted tighter than this
+const WIDE_TOL_LO_MS: f64 = 150.0;
+const WIDE_TOL_UP_MS: f64 = 1500.0;
+/// ... and an attempt that is this much later than its latest due time is "never"
+const HANG_EXTRA_MS: f64 = 4000.0;
+/// default keepalive interval / timeout (ms) of family E, handshake timeout of family F
+const KA_I_MS: u64 = 300;
+const KA_T_MS: u64 = 600;
+const TLS_HS_TIMEOUT_MS: u64 = 500;
 /// generous deadline for things that take milliseconds
 const LONG_WAIT_MS: u64 = 20_000;
 /// how long "no new attempt although nothing local is pending" is watched before the
@@ -68,6 +84,8 @@ pub enum Beh {
     Drop,
     Mute,
     Healthy,
+    Silent,
+    TlsStall,
 }
 
 impl Beh {
@@ -81,14 +99,16 @@ impl Beh {
             Beh::Drop => "drop",
             Beh::Mute => "mute",
             Beh::Healthy => "healthy",
+            Beh::Silent => "silent",
+            Beh::TlsStall => "tls-stall",
         }
     }
     fn parse(s: &str) -> Option<Self> {
-        [Beh::Reset, Beh::Stall, Beh::Http404, Beh::Close0, Beh::Close300, Beh::Drop, Beh::Mute, Beh::Healthy].into_iter().find(|b| b.name() == s)
+        [Beh::Reset, Beh::Stall, Beh::Http404, Beh::Close0, Beh::Close300, Beh::Drop, Beh::Mute, Beh::Healthy, Beh::Silent, Beh::TlsStall].into_iter().find(|b| b.name() == s)
     }
     /// the WebSocket handshake completes: the client "had a successful connection"
     fn connects(self) -> bool {
-        matches!(self, Beh::Close0 | Beh::Close300 | Beh::Drop | Beh::Mute | Beh::Healthy)
+        matches!(self, Beh::Close0 | Beh::Close300 | Beh::Drop | Beh::Mute | Beh::Healthy | Beh::Silent)
     }
     fn terminal(self) -> bool {
         matches!(self, Beh::Healthy | Beh::Http404)
@@ -103,6 +123,8 @@ impl Beh {
             Beh::Stall => "handshake-timeout",
             Beh::Http404 => "http404",
             Beh::Healthy => "healthy",
+            Beh::Silent => "silence",
+            Beh::TlsStall => "tls-stall",
         }
     }
 }
@@ -126,9 +148,33 @@ struct Scenario {
     /// open a local connection right after the failure of this attempt
     down_at: Option<usize>,
     outage_ms: u64,
+    /// keepalive interval / timeout (ms) the client runs with (None: keepalive off)
+    ka: Option<(u64, u64)>,
+    /// `wss://` server URL (with `--tls-skip-verify`) instead of `ws://`
+    wss: bool,
+    /// handshake timeout (ms)
+    hs_ms: u64,
+    /// the script ends while the client must still be retrying: it is only observed that far
+    open_end: bool,
 }
 
 impl Scenario {
+    /// everything the scenarios of families A-D have in common
+    fn plain() -> Self {
+        Self { kind: Kind::Script, family: "", script: Vec::new(), n: 0, cap_ms: 300, down_at: None, outage_ms: 0, ka: None, wss: false, hs_ms: HS_TIMEOUT_MS, open_end: false }
+    }
+    fn steps(&self) -> Option<Vec<Step>> {
+        model_x(&self.script, self.n, self.cap_ms, self.ka.is_some(), self.open_end)
+    }
+    /// the keepalive pair whose reconnect window is watched at a `silent` server (the
+    /// default pair when the client runs without keepalive: the control case), timeout clamped
+    fn ka_ref(&self) -> (u64, u64) {
+        let (i, t) = self.ka.unwrap_or((KA_I_MS, KA_T_MS));
+        (i, t.max(i))
+    }
+    fn client_cfg(&self, sport: u16, lport: u16) -> net::ClientCfg {
+        net::ClientCfg { sport, lport, max_retry_count: self.n, max_retry_interval_ms: self.cap_ms, keepalive_ms: self.ka, wss: self.wss, handshake_timeout_ms: self.hs_ms, channel_timeout_ms: CH_TIMEOUT_MS }
+    }
     fn to_json(&self) -> Value {
         json!({
             "kind": match self.kind { Kind::Script => "script", Kind::RefuseExhaust => "refuse-exhaust", Kind::Outage => "outage" },
@@ -138,8 +184,11 @@ impl Scenario {
             "max_retry_interval_ms": self.cap_ms,
             "local_connection_after_attempt": self.down_at,
             "outage_ms": self.outage_ms,
-            "handshake_timeout_s": HS_TIMEOUT_MS / 1000,
+            "handshake_timeout_ms": self.hs_ms,
             "channel_timeout_s": CH_TIMEOUT_MS / 1000,
+            "keepalive_ms": self.ka.map(|(i, t)| json!({"interval": i, "timeout": t})),
+            "server_url_scheme": if self.wss { "wss" } else { "ws" },
+            "observed_until_end_of_script_only": self.open_end,
         })
     }
     fn from_json(v: &Value) -> Result<Self, String> {
@@ -158,6 +207,13 @@ impl Scenario {
             cap_ms: v["max_retry_interval_ms"].as_u64().ok_or("max_retry_interval_ms")?,
             down_at: v["local_connection_after_attempt"].as_u64().map(|x| x as usize),
             outage_ms: v["outage_ms"].as_u64().unwrap_or(0),
+            ka: match &v["keepalive_ms"] {
+                Value::Null => None,
+                k => Some((k["interval"].as_u64().ok_or("keepalive_ms.interval")?, k["timeout"].as_u64().ok_or("keepalive_ms.timeout")?)),
+            },
+            wss: v["server_url_scheme"].as_str() == Some("wss"),
+            hs_ms: v["handshake_timeout_ms"].as_u64().unwrap_or(HS_TIMEOUT_MS),
+            open_end: v["observed_until_end_of_script_only"].as_bool().unwrap_or(false),
         })
     }
     fn ident(&self) -> String {
@@ -166,14 +222,29 @@ impl Scenario {
         v.to_string()
     }
     fn short(&self) -> String {
-        format!(
+        let mut s = format!(
             "{:?}[{}] max_retry_count={} max_retry_interval={}ms local={}",
             self.kind,
             self.script.iter().map(|b| b.name()).collect::<Vec<_>>().join(","),
             self.n,
             self.cap_ms,
             self.down_at.map_or("none".to_string(), |p| format!("after-attempt-{p}"))
-        )
+        );
+        if let Some((i, t)) = self.ka {
+            s += &format!(" keepalive={i}ms keepalive_timeout={t}ms");
+        } else if self.script.contains(&Beh::Silent) {
+            s += " keepalive=off";
+        }
+        if self.wss {
+            s += " wss://";
+        }
+        if self.wss || self.hs_ms != HS_TIMEOUT_MS {
+            s += &format!(" handshake_timeout={}ms", self.hs_ms);
+        }
+        if self.open_end {
+            s += " (observed until the end of the script)";
+        }
+        s
     }
     /// rough duration estimate (ms), used only to start long scenarios first
     fn estimate_ms(&self) -> u64 {
@@ -181,12 +252,16 @@ impl Scenario {
             Kind::RefuseExhaust => (0..self.n).map(|k| delay_ms(k, self.cap_ms)).sum(),
             Kind::Outage => self.outage_ms + 500,
             Kind::Script => {
-                let Some(steps) = model(&self.script, self.n, self.cap_ms) else { return 0 };
+                let Some(steps) = self.steps() else { return 0 };
+                let (ka_i, ka_t) = self.ka_ref();
                 let mut t = 0;
                 for (b, s) in self.script.iter().zip(&steps) {
                     t += s.delay_ms.unwrap_or(0);
                     t += match b {
-                        Beh::Stall | Beh::Mute => 1000,
+                        Beh::Mute => CH_TIMEOUT_MS,
+                        Beh::Stall | Beh::TlsStall => self.hs_ms,
+                        Beh::Silent if self.ka.is_some() => ka_i + ka_t + ka_i,
+                        Beh::Silent => 700 + ka_t + ka_i + BASE_MS + WIDE_TOL_UP_MS as u64,
                         Beh::Close300 => 300 + QUIET_PAR_MS,
                         Beh::Close0 => QUIET_PAR_MS,
                         _ => 0,
@@ -215,6 +290,8 @@ enum End {
     NonRetryable,
     /// max_retry_count consecutive retries have failed
     GiveUp,
+    /// the script ends here, the client goes on retrying (open-ended scenarios)
+    Open,
 }
 
 #[derive(Clone, Copy, Debug)]
@@ -235,6 +312,13 @@ struct Step {
 /// `None`: the script is not a complete history under this rule (it goes on after
 /// the client must have ended, or stops while the client must still be retrying).
 fn model(script: &[Beh], n: u32, cap_ms: u64) -> Option<Vec<Step>> {
+    model_x(script, n, cap_ms, true, false)
+}
+
+/// `keepalive`: the client runs with a keepalive timeout, so a peer that has gone silent
+/// is a lost connection (C16); without one, nothing tells the client and it stays connected.
+/// `open_end`: the script may stop while the client must still be retrying.
+fn model_x(script: &[Beh], n: u32, cap_ms: u64, keepalive: bool, open_end: bool) -> Option<Vec<Step>> {
     let mut k = 0u32;
     let mut ku = 0u32;
     let mut out = Vec::new();
@@ -243,6 +327,7 @@ fn model(script: &[Beh], n: u32, cap_ms: u64) -> Option<Vec<Step>> {
         let step = match b {
             Beh::Healthy => Step { k, k_unreset: ku, delay_ms: None, end: Some(End::Stays) },
             Beh::Http404 => Step { k, k_unreset: ku, delay_ms: None, end: Some(End::NonRetryable) },
+            Beh::Silent if !keepalive => Step { k: 0, k_unreset: ku, delay_ms: None, end: Some(End::Stays) },
             _ => {
                 if b.connects() {
                     k = 0;
@@ -251,7 +336,7 @@ fn model(script: &[Beh], n: u32, cap_ms: u64) -> Option<Vec<Step>> {
                 if n != 0 && k >= n {
                     Step { k, k_unreset: ku, delay_ms: None, end: Some(End::GiveUp) }
                 } else {
-                    let s = Step { k, k_unreset: ku, delay_ms: Some(delay_ms(k, cap_ms)), end: None };
+                    let s = Step { k, k_unreset: ku, delay_ms: Some(delay_ms(k, cap_ms)), end: (last && open_end).then_some(End::Open) };
                     k += 1;
                     ku += 1;
                     s
@@ -307,7 +392,7 @@ fn build_matrix(thorough: bool) -> (Vec<Scenario>, Bounds) {
                 // give-up scripts made of pre-connect failures only may be one longer, so that
                 // the largest max_retry_count can be exhausted at all
                 if s.len() <= b.len || (give_up && s.len() <= b.len + 1 && !s.iter().any(|x| x.connects())) {
-                    v.push(Scenario { kind: Kind::Script, family: "A-counts-delays", script: s, n, cap_ms: cap, down_at: None, outage_ms: 0 });
+                    v.push(Scenario { kind: Kind::Script, family: "A-counts-delays", script: s, n, cap_ms: cap, down_at: None, outage_ms: 0, ..Scenario::plain() });
                 }
             }
         }
@@ -318,11 +403,11 @@ fn build_matrix(thorough: bool) -> (Vec<Scenario>, Bounds) {
         let has_mute = s.contains(&Beh::Mute);
         if s.len() >= 2 && s.len() <= b.len && model(&s, 0, 300).is_some() && s.last() == Some(&Beh::Healthy) {
             if has_mute {
-                v.push(Scenario { kind: Kind::Script, family: "B-pending-local", script: s.clone(), n: 0, cap_ms: 300, down_at: None, outage_ms: 0 });
+                v.push(Scenario { kind: Kind::Script, family: "B-pending-local", script: s.clone(), n: 0, cap_ms: 300, down_at: None, outage_ms: 0, ..Scenario::plain() });
             }
             for pos in 0..s.len() - 1 {
                 if s[pos] != Beh::Mute {
-                    v.push(Scenario { kind: Kind::Script, family: "B-pending-local", script: s.clone(), n: 0, cap_ms: 300, down_at: Some(pos), outage_ms: 0 });
+                    v.push(Scenario { kind: Kind::Script, family: "B-pending-local", script: s.clone(), n: 0, cap_ms: 300, down_at: Some(pos), outage_ms: 0, ..Scenario::plain() });
                 }
             }
         }
@@ -330,7 +415,7 @@ fn build_matrix(thorough: bool) -> (Vec<Scenario>, Bounds) {
         if has_mute {
             for n in [1u32, 2] {
                 if s.len() <= b.len && model(&s, n, 300).is_some_and(|st| st.last().is_some_and(|x| x.end == Some(End::GiveUp))) {
-                    v.push(Scenario { kind: Kind::Script, family: "B-pending-local", script: s.clone(), n, cap_ms: 300, down_at: None, outage_ms: 0 });
+                    v.push(Scenario { kind: Kind::Script, family: "B-pending-local", script: s.clone(), n, cap_ms: 300, down_at: None, outage_ms: 0, ..Scenario::plain() });
                 }
             }
         }
@@ -343,7 +428,7 @@ fn build_matrix(thorough: bool) -> (Vec<Scenario>, Bounds) {
         for &f2 in fails {
             for &s in succ {
                 for &n in counts_c {
-                    v.push(Scenario { kind: Kind::Script, family: "C-reset-after-success", script: vec![f1, f2, s, Beh::Healthy], n, cap_ms: 300_000, down_at: None, outage_ms: 0 });
+                    v.push(Scenario { kind: Kind::Script, family: "C-reset-after-success", script: vec![f1, f2, s, Beh::Healthy], n, cap_ms: 300_000, down_at: None, outage_ms: 0, ..Scenario::plain() });
                 }
             }
         }
@@ -352,29 +437,84 @@ fn build_matrix(thorough: bool) -> (Vec<Scenario>, Bounds) {
     // before and one loss after a successful connection must not add up)
     for &f in fails {
         for &s in succ {
-            v.push(Scenario { kind: Kind::Script, family: "C-reset-after-success", script: vec![f, s, Beh::Healthy], n: 1, cap_ms: 300, down_at: None, outage_ms: 0 });
+            v.push(Scenario { kind: Kind::Script, family: "C-reset-after-success", script: vec![f, s, Beh::Healthy], n: 1, cap_ms: 300, down_at: None, outage_ms: 0, ..Scenario::plain() });
         }
     }
     if thorough {
         for &s in succ {
-            v.push(Scenario { kind: Kind::Script, family: "C-reset-after-success", script: vec![Beh::Reset, Beh::Reset, Beh::Reset, s, Beh::Healthy], n: 0, cap_ms: 300_000, down_at: None, outage_ms: 0 });
+            v.push(Scenario { kind: Kind::Script, family: "C-reset-after-success", script: vec![Beh::Reset, Beh::Reset, Beh::Reset, s, Beh::Healthy], n: 0, cap_ms: 300_000, down_at: None, outage_ms: 0, ..Scenario::plain() });
         }
     }
     // D: a port that really refuses
     let counts_d: &[u32] = if thorough { &[1, 2, 3] } else { &[1, 2] };
     for &n in counts_d {
         for &cap in &b.caps {
-            v.push(Scenario { kind: Kind::RefuseExhaust, family: "D-refused", script: vec![], n, cap_ms: cap, down_at: None, outage_ms: 0 });
+            v.push(Scenario { kind: Kind::RefuseExhaust, family: "D-refused", script: vec![], n, cap_ms: cap, down_at: None, outage_ms: 0, ..Scenario::plain() });
         }
     }
-    v.push(Scenario { kind: Kind::Outage, family: "D-refused", script: vec![Beh::Healthy], n: 0, cap_ms: 300, down_at: Some(0), outage_ms: 1500 });
+    v.push(Scenario { kind: Kind::Outage, family: "D-refused", script: vec![Beh::Healthy], n: 0, cap_ms: 300, down_at: Some(0), outage_ms: 1500, ..Scenario::plain() });
     if thorough {
-        v.push(Scenario { kind: Kind::Outage, family: "D-refused", script: vec![Beh::Healthy], n: 0, cap_ms: 300, down_at: None, outage_ms: 1500 });
-        v.push(Scenario { kind: Kind::Outage, family: "D-refused", script: vec![Beh::Healthy], n: 0, cap_ms: 300, down_at: Some(0), outage_ms: 3000 });
+        v.push(Scenario { kind: Kind::Outage, family: "D-refused", script: vec![Beh::Healthy], n: 0, cap_ms: 300, down_at: None, outage_ms: 1500, ..Scenario::plain() });
+        v.push(Scenario { kind: Kind::Outage, family: "D-refused", script: vec![Beh::Healthy], n: 0, cap_ms: 300, down_at: Some(0), outage_ms: 3000, ..Scenario::plain() });
+    }
+    // E: a server that goes silent (stops answering Pings, stops reading; TCP stays open) is a
+    // lost connection for a client that runs with keepalive -- and only for such a client
+    let (h, si) = (Beh::Healthy, Beh::Silent);
+    let e = |script: Vec<Beh>, n: u32, ka: Option<(u64, u64)>, down_at: Option<usize>| Scenario { family: "E-keepalive", script, n, cap_ms: 300_000, down_at, ka, ..Scenario::plain() };
+    let ka0 = Some((KA_I_MS, KA_T_MS));
+    for n in [0u32, 1] {
+        v.push(e(vec![si, h], n, ka0, None));
+        v.push(e(vec![si, si, h], n, ka0, None));
+    }
+    v.push(e(vec![si, h], 0, ka0, Some(0)));
+    v.push(e(vec![si], 0, None, None));
+    if thorough {
+        // other interval / timeout pairs (the last one has T < I: the timeout is clamped to I)
+        for ka in [(200, 400), (300, 300), (250, 1000), (400, 200)] {
+            for n in [0u32, 2] {
+                v.push(e(vec![si, h], n, Some(ka), None));
+            }
+            v.push(e(vec![si, si, h], 0, Some(ka), Some(1)));
+        }
+        v.push(e(vec![si, si, si, h], 0, ka0, None));
+        v.push(e(vec![si, si, si, h], 1, ka0, None));
+        v.push(e(vec![si, si, h], 0, ka0, Some(0)));
+        v.push(e(vec![si, si, h], 1, ka0, Some(1)));
+        // mixed with the other ways of losing / not getting a connection
+        for other in [Beh::Reset, Beh::Close0, Beh::Drop] {
+            v.push(e(vec![other, si, h], 1, ka0, None));
+            v.push(e(vec![si, other, h], 2, ka0, None));
+            v.push(e(vec![si, other, h], 0, ka0, Some(0)));
+        }
+        // the loss by silence is failure number 0: one refused retry exhausts max_retry_count = 1
+        v.push(e(vec![si, Beh::Reset], 1, ka0, None));
+        v.push(e(vec![si], 1, None, None));
+    }
+    // F: a `wss://` server that accepts the TCP connection and never answers the TLS ClientHello:
+    // every attempt is a handshake timeout (retryable)
+    let ts = Beh::TlsStall;
+    let f = |script: Vec<Beh>, n: u32, cap_ms: u64, hs_ms: u64, wss: bool| {
+        let open_end = n == 0;
+        Scenario { family: "F-tls-handshake", script, n, cap_ms, wss, hs_ms, open_end, ..Scenario::plain() }
+    };
+    v.push(f(vec![ts, ts], 1, 300_000, TLS_HS_TIMEOUT_MS, true));
+    v.push(f(vec![ts, ts, ts], 0, 300_000, TLS_HS_TIMEOUT_MS, true));
+    // control: the same timeout on the WebSocket upgrade of a `ws://` URL
+    v.push(f(vec![Beh::Stall, Beh::Stall], 1, 300_000, TLS_HS_TIMEOUT_MS, false));
+    if thorough {
+        for hs in [300, TLS_HS_TIMEOUT_MS, 800] {
+            for cap in [300, 300_000] {
+                v.push(f(vec![ts, ts, ts], 2, cap, hs, true));
+                v.push(f(vec![ts, ts, ts, ts], 3, cap, hs, true));
+                v.push(f(vec![ts, ts, ts, ts], 0, cap, hs, true));
+            }
+        }
+        v.push(f(vec![ts, ts, ts, ts, ts], 0, 300_000, TLS_HS_TIMEOUT_MS, true));
+        v.push(f(vec![Beh::Stall, Beh::Stall, Beh::Stall], 0, 300_000, TLS_HS_TIMEOUT_MS, false));
     }
     for sc in &v {
         if sc.kind == Kind::Script {
-            assert!(model(&sc.script, sc.n, sc.cap_ms).is_some(), "matrix contains an incomplete history: {}", sc.short());
+            assert!(sc.steps().is_some(), "matrix contains an incomplete history: {}", sc.short());
         }
     }
     // no duplicates by construction; make sure
@@ -437,6 +577,38 @@ struct Exec {
     wall_ms: f64,
     /// smallest (accept time - lower bound) over the checked gaps: how tight the lower bound was
     min_slack_ms: Option<f64>,
+    /// an attempt (or the end of the client) that was due after a `silent` / `tls-stall`
+    /// connection did not come although it was waited for well beyond its latest due time
+    hung: Option<Hang>,
+    /// the client closed the connection while the `silent` server was still answering Pings
+    lost_while_answered: Option<usize>,
+    /// (accept - earliest due time, latest due time + tolerance - accept) of the gaps checked after a
+    /// `silent` / `tls-stall` attempt
+    ka_gaps: Vec<(f64, f64)>,
+    tls_gaps: Vec<(f64, f64)>,
+}
+
+#[derive(Clone, Debug)]
+struct Hang {
+    after_attempt: usize,
+    beh: Beh,
+    /// what was due: "attempt N" / "the end of the client"
+    what: String,
+    latest_due_ms: f64,
+    waited_until_ms: f64,
+}
+
+/// The time (ms since t0) by which the client must have noticed the failure of a `silent`
+/// (keepalive on) or stalled attempt at the latest, from what the server logged.
+fn noticed_by(sc: &Scenario, a: &AttemptLog) -> Option<f64> {
+    let (ka_i, ka_t) = sc.ka_ref();
+    match a.beh? {
+        // C16: no later than T + I after the last Pong (the multiplexor starts its clock when it is created)
+        Beh::Silent => Some(a.pong_after_ms.or(a.hs_done_ms).unwrap_or(a.accept_ms) + (ka_t + ka_i) as f64),
+        // the handshake timer was started before the TCP connection was made
+        Beh::Stall | Beh::TlsStall => Some(a.accept_ms + sc.hs_ms as f64),
+        _ => None,
+    }
 }
 
 impl Exec {
@@ -458,6 +630,10 @@ impl Exec {
             listen_ms: None,
             wall_ms: 0.0,
             min_slack_ms: None,
+            hung: None,
+            lost_while_answered: None,
+            ka_gaps: Vec::new(),
+            tls_gaps: Vec::new(),
         }
     }
     fn find(&mut self, key: impl Into<String>, desc: impl Into<String>, load_sensitive: bool) {
@@ -480,7 +656,9 @@ impl Exec {
                 "accept_ms": r1(a.accept_ms), "played": a.beh.map_or("(beyond the script: stalled)", Beh::name),
                 "handshake_done_ms": a.hs_done_ms.map(r1), "handshake_error": a.hs_err,
                 "server_action_ms": a.act_before_ms.map(r1), "first_frame_ms": a.first_bin_ms.map(r1), "peer_end_ms": a.peer_end_ms.map(r1),
+                "pongs_sent": a.pongs, "last_pong_ms": a.pong_after_ms.map(r1), "went_silent_ms": a.silent_ms.map(r1), "first_byte_from_client": a.first_byte.map(|b| format!("0x{b:02x}")),
             })).collect::<Vec<_>>(),
+            "waited_in_vain": self.hung.as_ref().map(|h| json!({"for": h.what, "after_attempt": h.after_attempt, "played": h.beh.name(), "due_by_ms": r1(h.latest_due_ms), "waited_until_ms": r1(h.waited_until_ms)})),
             "streams_at_healthy_server": self.streams.iter().map(|s| json!({"attempt": s.attempt, "target": format!("{}:{}", s.host, s.port)})).collect::<Vec<_>>(),
             "client_result": self.client_end.as_ref().map(|c| json!({"t_ms": r1(c.t_ms), "class": c.class, "text": c.text})),
             "local_connections": self.locals.iter().map(|l| json!({"opened_because": l.origin, "request_timed_out_once": l.through_mute, "open_ms": r1(l.open_before_ms), "result": l.result.as_ref().map(|r| format!("{r:?}")), "deadline_hit": l.deadline_hit})).collect::<Vec<_>>(),
@@ -543,8 +721,9 @@ fn addr_in_use(c: &ClientEnd) -> bool {
 
 async fn exec_script(sc: &Scenario, iso: bool) -> Exec {
     let mut ex = Exec::new(sc, iso);
-    let steps = model(&sc.script, sc.n, sc.cap_ms).expect("complete history");
+    let steps = sc.steps().expect("complete history");
     let quiet_ms = if iso { QUIET_ISO_MS } else { QUIET_PAR_MS };
+    let (ka_i, ka_t) = sc.ka_ref();
     let listener = match TcpListener::bind("127.0.0.1:0").await {
         Ok(l) => l,
         Err(e) => {
@@ -558,13 +737,26 @@ async fn exec_script(sc: &Scenario, iso: bool) -> Exec {
     };
     let sh = Shared::new();
     let server = tokio::spawn(serve(listener, sc.script.clone(), sh.clone()));
-    let client = spawn_client(sport, lport, sc.n, sc.cap_ms, sh.clone());
+    let client = spawn_client(sc.client_cfg(sport, lport), sh.clone());
     let mut ctl = Ctl { sh: sh.clone(), lport, locals: Vec::new(), listener_seen: Arc::new(AtomicBool::new(false)) };
     let len = sc.script.len();
 
     for j in 0..len {
         let b = sc.script[j];
-        let exp_gap = if j == 0 { 0 } else { steps[j - 1].delay_ms.unwrap_or(0) + if matches!(sc.script[j - 1], Beh::Stall | Beh::Mute) { 1000 } else { 0 } };
+        let exp_gap = if j == 0 {
+            0
+        } else {
+            steps[j - 1].delay_ms.unwrap_or(0)
+                + match sc.script[j - 1] {
+                    Beh::Mute => CH_TIMEOUT_MS,
+                    Beh::Stall | Beh::TlsStall => sc.hs_ms,
+                    Beh::Silent => ka_t + ka_i,
+                    _ => 0,
+                }
+        };
+        // after a `silent` / `tls-stall` attempt the next one is due by a time the server's log
+        // gives; it is waited for well beyond that, and no local connection is used as a nudge
+        let wide_due = if j > 0 && matches!(sc.script[j - 1], Beh::Silent | Beh::TlsStall) { sh.read(|l| noticed_by(sc, &l.attempts[j - 1])).map(|t| t + steps[j - 1].delay_ms.unwrap_or(0) as f64) } else { None };
         let cond = |l: &net::Log| {
             if l.attempts.len() > j {
                 Some(Arrival::Arrived)
@@ -574,7 +766,14 @@ async fn exec_script(sc: &Scenario, iso: bool) -> Exec {
                 None
             }
         };
-        let got = if j > 0 && ctl.locals.is_empty() {
+        let got = if let Some(due) = wide_due {
+            let wait = (due + HANG_EXTRA_MS - sh.now_ms()).max(0.0) as u64;
+            let r = sh.wait(wait, cond).await;
+            if r.is_none() {
+                ex.hung = Some(Hang { after_attempt: j - 1, beh: sc.script[j - 1], what: format!("attempt {j}"), latest_due_ms: due, waited_until_ms: sh.now_ms() });
+            }
+            r
+        } else if j > 0 && ctl.locals.is_empty() {
             // nothing local is pending: the client must come back on its own
             let silent_ms = quiet_ms + 3 * exp_gap;
             match sh.wait(silent_ms, cond).await {
@@ -642,7 +841,28 @@ async fn exec_script(sc: &Scenario, iso: bool) -> Exec {
                 let acc = sh.read(|l| l.attempts[j].accept_ms);
                 ex.mute_req_lo.insert(j, acc.max(first_open));
             }
-            Beh::Stall => {}
+            Beh::Stall | Beh::TlsStall => {}
+            Beh::Silent => match sh.wait(LONG_WAIT_MS, |l| l.attempts[j].silent_ms.map(|_| true).or(l.attempts[j].peer_end_ms.map(|_| false))).await {
+                Some(true) => {}
+                Some(false) => {
+                    // The client dropped the connection while the server was still answering. T after
+                    // the last Pong that is a keepalive timeout as good as the one the silence causes
+                    // (with T = I a tick that is late by more than the round trip does it); earlier it is not.
+                    let (earliest, ended) = sh.read(|l| {
+                        let a = &l.attempts[j];
+                        (a.pong_before_ms.unwrap_or(a.accept_ms) + ka_t as f64, a.peer_end_ms.unwrap_or(0.0))
+                    });
+                    if sc.ka.is_none() || ended < earliest - WIDE_TOL_LO_MS {
+                        ex.lost_while_answered = Some(j);
+                        ex.stop = Some(format!("the client closed connection {j} while the server was still answering its Pings"));
+                        break;
+                    }
+                }
+                None => {
+                    ex.machinery = Some(format!("the fake server never went silent on attempt {j}"));
+                    break;
+                }
+            },
             Beh::Healthy => ctl.verify_locals().await,
         }
         if sc.down_at == Some(j) && !b.terminal() && !(b == Beh::Mute) {
@@ -651,11 +871,30 @@ async fn exec_script(sc: &Scenario, iso: bool) -> Exec {
         match steps[j].end {
             Some(End::GiveUp | End::NonRetryable) => {
                 // the client must end now; an attempt beyond the script is an answer too
-                let extra = if b == Beh::Stall { HS_TIMEOUT_MS * 3 } else { 0 };
-                sh.wait(LONG_WAIT_MS + extra, |l| (l.client_end.is_some() || l.attempts.len() > len).then_some(())).await;
+                let ended = |l: &net::Log| (l.client_end.is_some() || l.attempts.len() > len).then_some(());
+                if b == Beh::TlsStall {
+                    let due = sh.read(|l| noticed_by(sc, &l.attempts[j])).unwrap_or(0.0);
+                    let wait = (due + HANG_EXTRA_MS - sh.now_ms()).max(0.0) as u64;
+                    if sh.wait(wait, ended).await.is_none() {
+                        ex.hung = Some(Hang { after_attempt: j, beh: b, what: "the end of the client".into(), latest_due_ms: due, waited_until_ms: sh.now_ms() });
+                    }
+                } else {
+                    let extra = if b == Beh::Stall { sc.hs_ms * 3 } else { 0 };
+                    sh.wait(LONG_WAIT_MS + extra, ended).await;
+                }
                 ex.completed = true;
             }
-            Some(End::Stays) => ex.completed = true,
+            Some(End::Stays) => {
+                if b == Beh::Silent {
+                    // keepalive is off: nothing tells the client, it must stay on this connection for
+                    // (at least) the time in which a client with keepalive would have come back
+                    let until = sh.read(|l| noticed_by(sc, &l.attempts[j])).unwrap_or(0.0) + BASE_MS as f64 + WIDE_TOL_UP_MS;
+                    let wait = (until - sh.now_ms()).max(0.0) as u64;
+                    sh.wait(wait, |l| (l.client_end.is_some() || l.attempts.len() > len).then_some(())).await;
+                }
+                ex.completed = true;
+            }
+            Some(End::Open) => ex.completed = true,
             None => {}
         }
     }
@@ -704,8 +943,46 @@ fn judge_script(ex: &mut Exec, steps: &[Step]) {
         }
     }
 
+    // ---- a silent server / a stalled TLS handshake that the client never gets over
+    let (ka_i, ka_t) = sc.ka_ref();
+    if let (Some(h), None) = (ex.hung.clone(), &end) {
+        let waited = format!("{} was due by {:.0} ms at the latest and had not come at {:.0} ms, the client still running", h.what, h.latest_due_ms, h.waited_until_ms);
+        match h.beh {
+            Beh::Silent => {
+                let a = &att[h.after_attempt];
+                ex.find(
+                    "keepalive.no-reconnect-after-silence",
+                    format!(
+                        "connection {} answered {} Ping(s), the last at {:.0} ms, then the server went silent (no more reads or writes, TCP open); with keepalive interval {ka_i} ms and timeout {ka_t} ms the client must drop it between {ka_t} and {} ms after the last Pong and reconnect {} ms later, but {waited}; {ctx}",
+                        h.after_attempt,
+                        a.pongs,
+                        a.pong_after_ms.unwrap_or(f64::NAN),
+                        ka_t + ka_i,
+                        steps[h.after_attempt].delay_ms.unwrap_or(0)
+                    ),
+                    true,
+                );
+            }
+            _ => ex.find(
+                "handshake.tls-stall-hangs",
+                format!(
+                    "attempt {} (wss://) was accepted at {:.0} ms and the TLS ClientHello was never answered; the handshake timeout of {} ms makes this a failed attempt (HandshakeTimeout, retryable), but {waited}; {ctx}",
+                    h.after_attempt, att[h.after_attempt].accept_ms, sc.hs_ms
+                ),
+                true,
+            ),
+        }
+    }
+    if let Some(j) = ex.lost_while_answered {
+        if end.is_none() {
+            let a = &att[j];
+            let why = if sc.ka.is_some() { format!("less than the keepalive timeout of {ka_t} ms after the last Pong (written not before {:.0} ms)", a.pong_before_ms.unwrap_or(a.accept_ms)) } else { "although keepalive is off".to_string() };
+            ex.find("keepalive.lost-while-pongs-answered", format!("the client closed connection {j} at {:.0} ms while the server was still answering its Pings ({} answered), {why}; {ctx}", a.peer_end_ms.unwrap_or(f64::NAN), a.pongs), true);
+        }
+    }
+
     // ---- attempts that never came / handshakes that failed
-    if !ex.completed && end.is_none() {
+    if !ex.completed && end.is_none() && ex.hung.is_none() {
         if let Some(stop) = ex.stop.clone() {
             let j = att.len().min(len);
             let prev = if j > 0 { sc.script[j - 1].class() } else { "start" };
@@ -743,6 +1020,7 @@ fn judge_script(ex: &mut Exec, steps: &[Step]) {
         match last_step.end {
             Some(End::GiveUp) => match &end {
                 None if seen > len => ex.find(format!("giveup.extra-attempt.n{}", sc.n), format!("attempt {} was made although max_retry_count={} consecutive retries had failed after attempt {len}; {ctx}", seen, sc.n), false),
+                None if ex.hung.is_some() => {}
                 None => ex.find(format!("giveup.never.n{}", sc.n), format!("the client did not end within {LONG_WAIT_MS} ms after max_retry_count={} consecutive retries had failed; {ctx}", sc.n), true),
                 Some(c) if c.class == "max-retry" || c.class == "panic" => {}
                 Some(c) => ex.find(format!("giveup.wrong-result.{}", c.class), format!("after max_retry_count={} failed retries the client ended with {} [{}] instead of MaxRetryCountReached; {ctx}", sc.n, c.class, c.text), false),
@@ -761,8 +1039,25 @@ fn judge_script(ex: &mut Exec, steps: &[Step]) {
                     if c.class != "panic" {
                         ex.find(format!("result.ended-while-healthy.{}", c.class), format!("the client ended with {} [{}] while connected to the healthy server; {ctx}", c.class, c.text), false);
                     }
+                } else if seen > len && sc.script[len - 1] == Beh::Silent {
+                    let a = &att[len - 1];
+                    ex.find(
+                        "keepalive.reconnect-without-keepalive",
+                        format!("keepalive is off, so a server that goes silent (at {:.0} ms) is not a lost connection; the client dropped connection {} and made attempt {seen} at {:.0} ms; {ctx}", a.silent_ms.unwrap_or(f64::NAN), len - 1, att[len].accept_ms),
+                        false,
+                    );
                 } else if seen > len {
                     ex.find("attempts.extra-while-healthy", format!("{seen} attempts for a script of {len}: the client reconnected while the healthy connection was up; {ctx}"), true);
+                }
+            }
+            Some(End::Open) => {
+                // the script has ended, the client must still be retrying
+                if let Some(c) = &end {
+                    if c.class == "max-retry" {
+                        ex.find("giveup.with-unlimited-retries", format!("the client ended with MaxRetryCountReached [{}] at {:.0} ms although max_retry_count is 0; {ctx}", c.text, c.t_ms), false);
+                    } else if c.class != "panic" {
+                        ex.find(format!("result.early-exit.{}.after-{}", c.class, sc.script[len - 1].class()), format!("the client ended with {} [{}] at {:.0} ms; a retryable failure must be retried; {ctx}", c.class, c.text, c.t_ms), false);
+                    }
                 }
             }
             None => {}
@@ -774,7 +1069,7 @@ fn judge_script(ex: &mut Exec, steps: &[Step]) {
         if let (Some(c), Some(a)) = (&end, att.last()) {
             let up = match sc.script[len - 1] {
                 Beh::Reset | Beh::Http404 => a.act_after_ms,
-                Beh::Stall => Some(a.accept_ms + HS_TIMEOUT_MS as f64),
+                Beh::Stall | Beh::TlsStall => Some(a.accept_ms + sc.hs_ms as f64),
                 _ => None,
             };
             if let Some(up) = up {
@@ -800,26 +1095,47 @@ fn judge_script(ex: &mut Exec, steps: &[Step]) {
             let d = st.delay_ms.unwrap_or(0) as f64;
             lb = lo + d;
             let cls = format!("k{}{}", st.k, if pb.connects() { ".after-success" } else { "" });
-            if q.is_none() {
-                let slack = a.accept_ms - lb;
-                ex.min_slack_ms = Some(ex.min_slack_ms.map_or(slack, |m: f64| m.min(slack)));
-            }
-            if a.accept_ms < lb - TOL_MS {
-                ex.find(
-                    format!("backoff.too-early.{cls}"),
-                    format!("attempt {j} was accepted at {:.1} ms, but the failure of attempt {} ({}) cannot have been noticed before {lo:.1} ms and the delay for consecutive failure {} is min(200x2^{}, {}) = {d} ms; {ctx}", a.accept_ms, j - 1, pb.name(), st.k, st.k, sc.cap_ms),
-                    false,
-                );
-            }
-            // upper side: relative to the nudge if the client had to be nudged
-            let up_anchor = q.as_ref().map_or(up, |q| Some(q.nudge_before_ms));
-            if let Some(u) = up_anchor {
-                if a.accept_ms > u + 3.0 * d + 1000.0 + if q.is_some() { 500.0 } else { 0.0 } {
-                    ex.find(format!("backoff.too-late.{cls}"), format!("attempt {j} was accepted at {:.1} ms, more than 3x{d}+1000 ms after the failure of attempt {} ({}) was noticed (at most {u:.1} ms); {ctx}", a.accept_ms, j - 1, pb.name()), true);
+            // families E / F: own keys, wide tolerances on both sides
+            let wide = match pb {
+                Beh::Silent => Some(("keepalive.reconnect-too-early", "keepalive.reconnect-too-late", format!("the server sent its last Pong on connection {} not before {:.1} ms and went silent; with keepalive interval {ka_i} ms / timeout {ka_t} ms the client drops the connection between {ka_t} and {} ms after that Pong", j - 1, lo - ka_t as f64, ka_t + ka_i))),
+                Beh::TlsStall => Some(("handshake.tls-stall-wrong-delay", "handshake.tls-stall-wrong-delay", format!("attempt {} (wss://, TLS ClientHello never answered) fails with the handshake timeout of {} ms", j - 1, sc.hs_ms))),
+                _ => None,
+            };
+            if let Some((early_key, late_key, why)) = wide {
+                if let Some(u) = up {
+                    let g = (a.accept_ms - lb, u + d + WIDE_TOL_UP_MS - a.accept_ms);
+                    if pb == Beh::Silent { ex.ka_gaps.push(g) } else { ex.tls_gaps.push(g) }
+                }
+                if a.accept_ms < lb - WIDE_TOL_LO_MS {
+                    ex.find(early_key, format!("{why}, i.e. not before {lo:.1} ms, and retries min(200x2^{}, {}) = {d} ms later; attempt {j} was accepted at {:.1} ms already; {ctx}", st.k, sc.cap_ms, a.accept_ms), false);
+                }
+                if let Some(u) = up {
+                    if a.accept_ms > u + d + WIDE_TOL_UP_MS {
+                        ex.find(late_key, format!("{why}, i.e. by {u:.1} ms at the latest, and retries min(200x2^{}, {}) = {d} ms later; attempt {j} was accepted only at {:.1} ms (allowed: {WIDE_TOL_UP_MS} ms more); {ctx}", st.k, sc.cap_ms, a.accept_ms), true);
+                    }
+                }
+            } else {
+                if q.is_none() {
+                    let slack = a.accept_ms - lb;
+                    ex.min_slack_ms = Some(ex.min_slack_ms.map_or(slack, |m: f64| m.min(slack)));
+                }
+                if a.accept_ms < lb - TOL_MS {
+                    ex.find(
+                        format!("backoff.too-early.{cls}"),
+                        format!("attempt {j} was accepted at {:.1} ms, but the failure of attempt {} ({}) cannot have been noticed before {lo:.1} ms and the delay for consecutive failure {} is min(200x2^{}, {}) = {d} ms; {ctx}", a.accept_ms, j - 1, pb.name(), st.k, st.k, sc.cap_ms),
+                        false,
+                    );
+                }
+                // upper side: relative to the nudge if the client had to be nudged
+                let up_anchor = q.as_ref().map_or(up, |q| Some(q.nudge_before_ms));
+                if let Some(u) = up_anchor {
+                    if a.accept_ms > u + 3.0 * d + 1000.0 + if q.is_some() { 500.0 } else { 0.0 } {
+                        ex.find(format!("backoff.too-late.{cls}"), format!("attempt {j} was accepted at {:.1} ms, more than 3x{d}+1000 ms after the failure of attempt {} ({}) was noticed (at most {u:.1} ms); {ctx}", a.accept_ms, j - 1, pb.name()), true);
+                    }
                 }
             }
             let unreset = delay_ms(st.k_unreset, sc.cap_ms) as f64;
-            if pb.connects() && unreset >= 4.0 * d {
+            if pb.connects() && pb != Beh::Silent && unreset >= 4.0 * d {
                 let from = q.as_ref().map_or(lo, |q| q.nudge_before_ms);
                 if a.accept_ms - from >= unreset {
                     ex.find(
@@ -838,7 +1154,10 @@ fn judge_script(ex: &mut Exec, steps: &[Step]) {
         let anchors = match b {
             Beh::Reset | Beh::Close0 | Beh::Close300 | Beh::Drop => a.act_before_ms.map(|lo| (lo, a.act_after_ms)),
             // the handshake timer started no earlier than `lb` and no later than the accept
-            Beh::Stall => Some((lb + HS_TIMEOUT_MS as f64, Some(a.accept_ms + HS_TIMEOUT_MS as f64))),
+            Beh::Stall | Beh::TlsStall => Some((lb + sc.hs_ms as f64, noticed_by(&sc, a))),
+            // C16: no earlier than T after the last Pong (sent not before `pong_before_ms`; the client's
+            // clock starts when its multiplexor is created, after the server accepted), no later than T + I
+            Beh::Silent => Some((a.pong_before_ms.unwrap_or(a.accept_ms) + ka_t as f64, noticed_by(&sc, a))),
             Beh::Mute => ex.mute_req_lo.get(&j).map(|lo| (lo + CH_TIMEOUT_MS as f64, a.first_bin_ms.map(|t| t + CH_TIMEOUT_MS as f64))),
             Beh::Http404 | Beh::Healthy => None,
         };
@@ -894,7 +1213,7 @@ async fn exec_refuse(sc: &Scenario, iso: bool) -> Exec {
         return ex;
     };
     let sh = Shared::new();
-    let client = spawn_client(sport, lport, sc.n, sc.cap_ms, sh.clone());
+    let client = spawn_client(sc.client_cfg(sport, lport), sh.clone());
     let sum: u64 = (0..sc.n).map(|k| delay_ms(k, sc.cap_ms)).sum();
     sh.wait(LONG_WAIT_MS + 3 * sum, |l| l.client_end.as_ref().map(|_| ())).await;
     let end = sh.read(|l| l.client_end.clone());
@@ -928,7 +1247,7 @@ async fn exec_outage(sc: &Scenario, iso: bool) -> Exec {
         return ex;
     };
     let sh = Shared::new();
-    let client = spawn_client(sport, lport, sc.n, sc.cap_ms, sh.clone());
+    let client = spawn_client(sc.client_cfg(sport, lport), sh.clone());
     let mut ctl = Ctl { sh: sh.clone(), lport, locals: Vec::new(), listener_seen: Arc::new(AtomicBool::new(false)) };
     tokio::time::sleep(Duration::from_millis(sc.outage_ms / 2)).await;
     if sc.down_at.is_some() {
@@ -1046,7 +1365,7 @@ fn replay(args: &Args, v: &Value, mut rep: Report) -> Report {
             return rep;
         }
     };
-    if sc.kind == Kind::Script && model(&sc.script, sc.n, sc.cap_ms).is_none() {
+    if sc.kind == Kind::Script && sc.steps().is_none() {
         rep.machinery_error = Some("the replayed script is not a complete history under the retry rule".into());
         return rep;
     }
@@ -1074,8 +1393,10 @@ fn replay(args: &Args, v: &Value, mut rep: Report) -> Report {
 #[allow(clippy::too_many_lines)]
 pub fn run(args: &Args) -> Report {
     let mut rep = Report::new("C19", &args.tier, "e2e", "exploration");
-    rep.rule = "one execution of the real client_main_inner per point of the scenario matrix (server-behaviour script x max_retry_count x max_retry_interval x local-connection placement), every point executed; a point is non-trivial/distinct when its scenario record is distinct; a finding counts only when a scenario that showed it in the parallel pass shows it again when run alone on the machine (one scenario per key is re-run, smallest first)".into();
+    rep.rule = "one execution of the real client_main_inner per point of the scenario matrix (server-behaviour script x max_retry_count x max_retry_interval x local-connection placement; for the silent-server scripts x keepalive interval/timeout or keepalive off; for the stalled-TLS-handshake scripts wss:// x handshake timeout), every point executed; a point is non-trivial/distinct when its scenario record is distinct; a finding counts only when a scenario that showed it in the parallel pass shows it again when run alone on the machine (one scenario per key is re-run, smallest first)".into();
     std::panic::set_hook(Box::new(|_| {}));
+    // family F makes the client build a TLS configuration (no TLS handshake is ever completed)
+    rusty_penguin_lib::tls::init_crypto_provider();
     if let Some(v) = args.replay_json() {
         return replay(args, &v, rep);
     }
@@ -1178,10 +1499,13 @@ pub fn run(args: &Args) -> Report {
     rep.bounds.insert("scenarios".into(), json!(matrix.len()));
     rep.bounds.insert("scenarios_per_family".into(), json!(fam));
     rep.bounds.insert("script_len_max".into(), json!({"families_A_B": bounds.len, "give_up_by_preconnect_failures_only": bounds.len + 1, "family_C": if thorough { 5 } else { 4 }}));
-    rep.bounds.insert("behaviours".into(), json!(["reset", "stall", "http404", "close0", "close300", "drop", "mute", "healthy", "(really refusing port: family D)"]));
+    rep.bounds.insert("behaviours".into(), json!(["reset", "stall", "http404", "close0", "close300", "drop", "mute", "healthy", "silent (family E)", "tls-stall (family F)", "(really refusing port: family D)"]));
     rep.bounds.insert("max_retry_count".into(), json!(bounds.counts));
     rep.bounds.insert("max_retry_interval_ms".into(), json!(bounds.caps));
-    rep.bounds.insert("handshake_timeout_ms".into(), json!(HS_TIMEOUT_MS));
+    rep.bounds.insert("handshake_timeout_ms".into(), json!(matrix.iter().map(|s| s.hs_ms).collect::<std::collections::BTreeSet<_>>()));
+    rep.bounds.insert("keepalive_interval_timeout_ms".into(), json!(matrix.iter().filter(|s| s.script.contains(&Beh::Silent)).map(|s| s.ka.map_or("off".to_string(), |(i, t)| format!("{i}/{t}"))).collect::<std::collections::BTreeSet<_>>()));
+    rep.bounds.insert("silent_server_answers_pings".into(), json!(format!("until {} Pongs are written or {} ms after the handshake", net::SILENT_PONGS, net::SILENT_ANSWERS_FOR.as_millis())));
+    rep.bounds.insert("families_E_F_tolerance_ms".into(), json!({"below_earliest_due_time": WIDE_TOL_LO_MS, "above_latest_due_time": WIDE_TOL_UP_MS, "never_came_after_latest_due_time_plus": HANG_EXTRA_MS}));
     rep.bounds.insert("channel_timeout_ms".into(), json!(CH_TIMEOUT_MS));
     rep.bounds.insert("parallel_scenarios".into(), json!(par));
     rep.bounds.insert("deadline_ms".into(), json!(LONG_WAIT_MS));
@@ -1203,6 +1527,21 @@ pub fn run(args: &Args) -> Report {
     let slack = execs.iter().filter_map(|e| e.min_slack_ms).fold(f64::INFINITY, f64::min);
     rep.extra.insert("smallest_margin_over_a_lower_bound_ms".into(), json!(if slack.is_finite() { Some((slack * 100.0).round() / 100.0) } else { None }));
     rep.extra.insert("gaps_checked_against_lower_bound".into(), json!(execs.iter().filter(|e| e.min_slack_ms.is_some()).count()));
+    // families E / F
+    let r1 = |x: f64| (x * 10.0).round() / 10.0;
+    let margins = |g: Vec<(f64, f64)>| json!({"gaps_checked": g.len(), "smallest_margin_over_earliest_due_ms": g.iter().map(|x| x.0).fold(f64::INFINITY, f64::min).is_finite().then(|| r1(g.iter().map(|x| x.0).fold(f64::INFINITY, f64::min))), "smallest_margin_under_latest_due_plus_tolerance_ms": g.iter().map(|x| x.1).fold(f64::INFINITY, f64::min).is_finite().then(|| r1(g.iter().map(|x| x.1).fold(f64::INFINITY, f64::min)))});
+    let ka_gaps: Vec<(f64, f64)> = execs.iter().flat_map(|e| e.ka_gaps.clone()).collect();
+    let tls_gaps: Vec<(f64, f64)> = execs.iter().flat_map(|e| e.tls_gaps.clone()).collect();
+    let silent_conns = execs.iter().flat_map(|e| &e.attempts).filter(|a| a.beh == Some(Beh::Silent) && a.silent_ms.is_some()).count();
+    let pongs: u64 = execs.iter().flat_map(|e| &e.attempts).filter(|a| a.beh == Some(Beh::Silent)).map(|a| u64::from(a.pongs)).sum();
+    let hellos = execs.iter().flat_map(|e| &e.attempts).filter(|a| a.beh == Some(Beh::TlsStall) && a.first_byte == Some(0x16)).count();
+    let ka_controls = execs.iter().filter(|e| e.sc.ka.is_none() && e.sc.script.last() == Some(&Beh::Silent) && e.completed && e.client_end_at_finish.is_none() && e.attempts.len() == e.sc.script.len()).count();
+    rep.extra.insert("reconnects_after_silent_server".into(), margins(ka_gaps.clone()));
+    rep.extra.insert("retries_after_stalled_tls_handshake".into(), margins(tls_gaps.clone()));
+    rep.extra.insert("connections_gone_silent".into(), json!(silent_conns));
+    rep.extra.insert("pongs_sent_by_silent_servers".into(), json!(pongs));
+    rep.extra.insert("tls_client_hellos_left_unanswered".into(), json!(hellos));
+    rep.extra.insert("clients_without_keepalive_that_stayed_on_a_silent_server".into(), json!(ka_controls));
     rep.extra.insert("suspicions".into(), json!(suspects.iter().map(|(k, v)| (k.clone(), v.len())).collect::<BTreeMap<_, _>>()));
     rep.extra.insert("suspicions_confirmed_alone".into(), json!(confirmed.keys().collect::<Vec<_>>()));
     rep.extra.insert("suspicions_not_reproduced_alone".into(), json!(refuted.len()));
@@ -1212,7 +1551,7 @@ pub fn run(args: &Args) -> Report {
     for (_, (_, iso)) in confirmed.iter().take(2) {
         rep.sample(iso.observation());
     }
-    for want in ["C-reset-after-success", "B-pending-local", "A-counts-delays", "D-refused"] {
+    for want in ["E-keepalive", "F-tls-handshake", "C-reset-after-success", "B-pending-local", "A-counts-delays", "D-refused"] {
         if let Some(e) = execs.iter().find(|e| e.sc.family == want && e.findings.is_empty() && e.machinery.is_none()) {
             rep.sample(e.observation());
         }
@@ -1220,7 +1559,8 @@ pub fn run(args: &Args) -> Report {
     rep.assumptions.push("interleavings are whatever the tokio multi-thread runtime and the loopback stack produce; one execution per scenario (re-run once alone for suspicions)".into());
     rep.assumptions.push("the refusal inside scripts is 'accept, then drop before any HTTP' so that attempts can be counted; a port that really refuses (family D) hides the attempts, there only the result and the total time are checked".into());
     rep.assumptions.push("lower bounds on gaps are anchored at server-side timestamps taken before the failure was caused (tolerance 2 ms); upper bounds are 3x the due delay + 1 s".into());
-    rep.assumptions.push("handshake_timeout = channel_timeout = 1 s, keepalive off, one TCP remote on 127.0.0.1; the back-off generator itself is checked exhaustively by the vmux half of C19".into());
+    rep.assumptions.push("handshake_timeout = channel_timeout = 1 s, keepalive off, ws:// (families A-D), one TCP remote on 127.0.0.1; the back-off generator itself is checked exhaustively by the vmux half of C19".into());
+    rep.assumptions.push(format!("families E (silent server; keepalive on/off) and F (wss:// with --tls-skip-verify, the server never speaks TLS; handshake timeout {TLS_HS_TIMEOUT_MS} ms in the quick tier) run in real time: an attempt counts as too early only {WIDE_TOL_LO_MS} ms before its earliest due time (last Pong + T + delay / earliest start + handshake timeout + delay), as too late only {WIDE_TOL_UP_MS} ms after its latest due time (last Pong + T + I + delay / accept + handshake timeout + delay), as never coming {HANG_EXTRA_MS} ms after the latter"));
 
     // ---- vacuity guard
     let n_max = ends.get("max-retry").copied().unwrap_or(0);
@@ -1232,6 +1572,8 @@ pub fn run(args: &Args) -> Report {
         rep.machinery_error = Some(format!("{} suspicion(s) could not be re-run alone within the time budget (machine too loaded for a verdict), e.g. {}", unresolved.len(), unresolved[0]));
     } else if n_max == 0 || n_http == 0 || n_run == 0 || echoes == 0 {
         rep.machinery_error = Some(format!("degenerate run: give-ups {n_max}, non-retryable exits {n_http}, clients left connected {n_run}, echoed local connections {echoes} -- each must be > 0"));
+    } else if confirmed.is_empty() && (ka_gaps.is_empty() || tls_gaps.is_empty() || pongs == 0 || hellos == 0 || ka_controls == 0) {
+        rep.machinery_error = Some(format!("degenerate run: reconnects after a silent server {}, Pongs sent by silent servers {pongs}, retries after a stalled TLS handshake {}, TLS ClientHellos seen {hellos}, keepalive-off controls that stayed connected {ka_controls} -- each must be > 0 when nothing was found", ka_gaps.len(), tls_gaps.len()));
     }
     rep
 }
